@@ -96,6 +96,9 @@ package cli
 //@       (forall j int :: 0 <= j && j < old(len(c.options)) ==> c.options[j] == old(c.options[j]))
 //@   ensures no-collision: forall j int :: 0 <= j && j < len(names) ==> !old(optStr(names[j]) in c.optionsIdx)
 //@   ensures no-repeat: forall i int, j int :: 0 <= i && i < j && j < len(names) ==> names[i] != names[j]
+//@   ensures carried: c.options[old(len(c.options))].ValueSetByUser == opt.ValueSetByUser && c.options[old(len(c.options))].Value == opt.Value &&
+//@       c.options[old(len(c.options))].EnvVar == opt.EnvVar && c.options[old(len(c.options))].Desc == opt.Desc &&
+//@       c.options[old(len(c.options))].HideValue == opt.HideValue && c.options[old(len(c.options))].Name == opt.Name
 //@   ensures table: forall n string :: {n in c.optionsIdx} (n in c.optionsIdx) <==> (old(n in c.optionsIdx) || (exists j int :: 0 <= j && j < len(names) && n == optStr(names[j])))
 //@   ensures table-new: forall j int :: 0 <= j && j < len(names) ==> c.optionsIdx[optStr(names[j])] == c.options[old(len(c.options))]
 //@   ensures table-old: forall n string :: old(n in c.optionsIdx) ==> c.optionsIdx[n] == old(c.optionsIdx[n])
@@ -125,6 +128,8 @@ package cli
 //@   ensures no-collision: !old(arg.Name in c.argsIdx)
 //@   ensures registered: len(c.args) == old(len(c.args)) + 1 && c.args[old(len(c.args))] != nil && fresh(c.args[old(len(c.args))]) &&
 //@       (forall j int :: 0 <= j && j < old(len(c.args)) ==> c.args[j] == old(c.args[j])) && c.args[old(len(c.args))].Name == arg.Name
+//@   ensures carried: c.args[old(len(c.args))].ValueSetByUser == arg.ValueSetByUser && c.args[old(len(c.args))].Value == arg.Value &&
+//@       c.args[old(len(c.args))].EnvVar == arg.EnvVar && c.args[old(len(c.args))].Desc == arg.Desc && c.args[old(len(c.args))].HideValue == arg.HideValue
 //@   ensures table: (arg.Name in c.argsIdx) && c.argsIdx[arg.Name] == c.args[old(len(c.args))] && frame(c.argsIdx[arg.Name])
 //@   ensures default-before-env: c.args[old(len(c.args))].DefaultValue ==
 //@       ((implements(arg.Value, "values.DefaultValued") && valueIsDefault(arg.Value, t0)) ? "" :
@@ -352,3 +357,272 @@ package cli
 //@   mayexit
 //@   ensures initialised-first: trace[len(old(trace))] == evMark("doInit", cli.Cmd)
 //@   panics spec-error-before-any-flow: !callOK("doInit", len(old(trace))) ==> noFlow(old(trace), trace)
+
+// --- declaration wrappers (C06: the declared default is stored first; C15: the SetByUser pointer is carried unchanged) -------
+// generated: one contract per built-in type, for the Opt and the Arg struct, the interface method, and Cmd.X / Cmd.XPtr
+//@ func (BoolOpt).value
+//@   ensures stored: result1 != nil && deref(result1) == o.Value && (into != nil ==> result1 == into) && (into == nil ==> fresh(result1))
+//@   ensures value: isType(result0, "*values.BoolValue") && asType(result0, "*values.BoolValue") == result1
+//@   ensures frame: frame(deref(result1))
+//@ func (BoolArg).value
+//@   ensures stored: result1 != nil && deref(result1) == a.Value && (into != nil ==> result1 == into) && (into == nil ==> fresh(result1))
+//@   ensures value: isType(result0, "*values.BoolValue") && asType(result0, "*values.BoolValue") == result1
+//@   ensures frame: frame(deref(result1))
+//@ func BoolParam.value(into)
+//@   ensures stored: result1 != nil && (into != nil ==> result1 == into) && (into == nil ==> fresh(result1))
+//@   ensures value: isType(result0, "*values.BoolValue") && asType(result0, "*values.BoolValue") == result1
+//@   ensures default: isType(this, "BoolOpt") ==> deref(result1) == asType(this, "BoolOpt").Value
+//@   ensures default-arg: isType(this, "BoolArg") ==> deref(result1) == asType(this, "BoolArg").Value
+//@   ensures frame: frame(deref(result1))
+//@ func (StringOpt).value
+//@   ensures stored: result1 != nil && deref(result1) == o.Value && (into != nil ==> result1 == into) && (into == nil ==> fresh(result1))
+//@   ensures value: isType(result0, "*values.StringValue") && asType(result0, "*values.StringValue") == result1
+//@   ensures frame: frame(deref(result1))
+//@ func (StringArg).value
+//@   ensures stored: result1 != nil && deref(result1) == a.Value && (into != nil ==> result1 == into) && (into == nil ==> fresh(result1))
+//@   ensures value: isType(result0, "*values.StringValue") && asType(result0, "*values.StringValue") == result1
+//@   ensures frame: frame(deref(result1))
+//@ func StringParam.value(into)
+//@   ensures stored: result1 != nil && (into != nil ==> result1 == into) && (into == nil ==> fresh(result1))
+//@   ensures value: isType(result0, "*values.StringValue") && asType(result0, "*values.StringValue") == result1
+//@   ensures default: isType(this, "StringOpt") ==> deref(result1) == asType(this, "StringOpt").Value
+//@   ensures default-arg: isType(this, "StringArg") ==> deref(result1) == asType(this, "StringArg").Value
+//@   ensures frame: frame(deref(result1))
+//@ func (IntOpt).value
+//@   ensures stored: result1 != nil && deref(result1) == o.Value && (into != nil ==> result1 == into) && (into == nil ==> fresh(result1))
+//@   ensures value: isType(result0, "*values.IntValue") && asType(result0, "*values.IntValue") == result1
+//@   ensures frame: frame(deref(result1))
+//@ func (IntArg).value
+//@   ensures stored: result1 != nil && deref(result1) == a.Value && (into != nil ==> result1 == into) && (into == nil ==> fresh(result1))
+//@   ensures value: isType(result0, "*values.IntValue") && asType(result0, "*values.IntValue") == result1
+//@   ensures frame: frame(deref(result1))
+//@ func IntParam.value(into)
+//@   ensures stored: result1 != nil && (into != nil ==> result1 == into) && (into == nil ==> fresh(result1))
+//@   ensures value: isType(result0, "*values.IntValue") && asType(result0, "*values.IntValue") == result1
+//@   ensures default: isType(this, "IntOpt") ==> deref(result1) == asType(this, "IntOpt").Value
+//@   ensures default-arg: isType(this, "IntArg") ==> deref(result1) == asType(this, "IntArg").Value
+//@   ensures frame: frame(deref(result1))
+//@ func (Float64Opt).value
+//@   ensures stored: result1 != nil && deref(result1) == o.Value && (into != nil ==> result1 == into) && (into == nil ==> fresh(result1))
+//@   ensures value: isType(result0, "*values.Float64Value") && asType(result0, "*values.Float64Value") == result1
+//@   ensures frame: frame(deref(result1))
+//@ func (Float64Arg).value
+//@   ensures stored: result1 != nil && deref(result1) == a.Value && (into != nil ==> result1 == into) && (into == nil ==> fresh(result1))
+//@   ensures value: isType(result0, "*values.Float64Value") && asType(result0, "*values.Float64Value") == result1
+//@   ensures frame: frame(deref(result1))
+//@ func Float64Param.value(into)
+//@   ensures stored: result1 != nil && (into != nil ==> result1 == into) && (into == nil ==> fresh(result1))
+//@   ensures value: isType(result0, "*values.Float64Value") && asType(result0, "*values.Float64Value") == result1
+//@   ensures default: isType(this, "Float64Opt") ==> deref(result1) == asType(this, "Float64Opt").Value
+//@   ensures default-arg: isType(this, "Float64Arg") ==> deref(result1) == asType(this, "Float64Arg").Value
+//@   ensures frame: frame(deref(result1))
+//@ func (StringsOpt).value
+//@   ensures stored: result1 != nil && deref(result1) == o.Value && (into != nil ==> result1 == into) && (into == nil ==> fresh(result1))
+//@   ensures value: isType(result0, "*values.StringsValue") && asType(result0, "*values.StringsValue") == result1
+//@   ensures frame: frame(deref(result1))
+//@ func (StringsArg).value
+//@   ensures stored: result1 != nil && deref(result1) == a.Value && (into != nil ==> result1 == into) && (into == nil ==> fresh(result1))
+//@   ensures value: isType(result0, "*values.StringsValue") && asType(result0, "*values.StringsValue") == result1
+//@   ensures frame: frame(deref(result1))
+//@ func StringsParam.value(into)
+//@   ensures stored: result1 != nil && (into != nil ==> result1 == into) && (into == nil ==> fresh(result1))
+//@   ensures value: isType(result0, "*values.StringsValue") && asType(result0, "*values.StringsValue") == result1
+//@   ensures default: isType(this, "StringsOpt") ==> deref(result1) == asType(this, "StringsOpt").Value
+//@   ensures default-arg: isType(this, "StringsArg") ==> deref(result1) == asType(this, "StringsArg").Value
+//@   ensures frame: frame(deref(result1))
+//@ func (IntsOpt).value
+//@   ensures stored: result1 != nil && deref(result1) == o.Value && (into != nil ==> result1 == into) && (into == nil ==> fresh(result1))
+//@   ensures value: isType(result0, "*values.IntsValue") && asType(result0, "*values.IntsValue") == result1
+//@   ensures frame: frame(deref(result1))
+//@ func (IntsArg).value
+//@   ensures stored: result1 != nil && deref(result1) == a.Value && (into != nil ==> result1 == into) && (into == nil ==> fresh(result1))
+//@   ensures value: isType(result0, "*values.IntsValue") && asType(result0, "*values.IntsValue") == result1
+//@   ensures frame: frame(deref(result1))
+//@ func IntsParam.value(into)
+//@   ensures stored: result1 != nil && (into != nil ==> result1 == into) && (into == nil ==> fresh(result1))
+//@   ensures value: isType(result0, "*values.IntsValue") && asType(result0, "*values.IntsValue") == result1
+//@   ensures default: isType(this, "IntsOpt") ==> deref(result1) == asType(this, "IntsOpt").Value
+//@   ensures default-arg: isType(this, "IntsArg") ==> deref(result1) == asType(this, "IntsArg").Value
+//@   ensures frame: frame(deref(result1))
+//@ func (Floats64Opt).value
+//@   ensures stored: result1 != nil && deref(result1) == o.Value && (into != nil ==> result1 == into) && (into == nil ==> fresh(result1))
+//@   ensures value: isType(result0, "*values.Floats64Value") && asType(result0, "*values.Floats64Value") == result1
+//@   ensures frame: frame(deref(result1))
+//@ func (Floats64Arg).value
+//@   ensures stored: result1 != nil && deref(result1) == a.Value && (into != nil ==> result1 == into) && (into == nil ==> fresh(result1))
+//@   ensures value: isType(result0, "*values.Floats64Value") && asType(result0, "*values.Floats64Value") == result1
+//@   ensures frame: frame(deref(result1))
+//@ func Floats64Param.value(into)
+//@   ensures stored: result1 != nil && (into != nil ==> result1 == into) && (into == nil ==> fresh(result1))
+//@   ensures value: isType(result0, "*values.Floats64Value") && asType(result0, "*values.Floats64Value") == result1
+//@   ensures default: isType(this, "Floats64Opt") ==> deref(result1) == asType(this, "Floats64Opt").Value
+//@   ensures default-arg: isType(this, "Floats64Arg") ==> deref(result1) == asType(this, "Floats64Arg").Value
+//@   ensures frame: frame(deref(result1))
+//@ func (*Cmd).Bool
+//@   requires recv: c != nil && c.optionsIdx != nil && c.argsIdx != nil && p != nil
+//@   maypanic
+//@   ensures option: isType(p, "BoolOpt") ==> len(c.options) == old(len(c.options)) + 1 && len(c.args) == old(len(c.args)) &&
+//@       c.options[old(len(c.options))].ValueSetByUser == asType(p, "BoolOpt").SetByUser && c.options[old(len(c.options))].EnvVar == asType(p, "BoolOpt").EnvVar &&
+//@       c.options[old(len(c.options))].Name == asType(p, "BoolOpt").Name && c.options[old(len(c.options))].HideValue == asType(p, "BoolOpt").HideValue &&
+//@       isType(c.options[old(len(c.options))].Value, "*values.BoolValue") && asType(c.options[old(len(c.options))].Value, "*values.BoolValue") == result
+//@   ensures argument: isType(p, "BoolArg") ==> len(c.args) == old(len(c.args)) + 1 && len(c.options) == old(len(c.options)) &&
+//@       c.args[old(len(c.args))].ValueSetByUser == asType(p, "BoolArg").SetByUser && c.args[old(len(c.args))].EnvVar == asType(p, "BoolArg").EnvVar &&
+//@       c.args[old(len(c.args))].Name == asType(p, "BoolArg").Name && c.args[old(len(c.args))].HideValue == asType(p, "BoolArg").HideValue &&
+//@       isType(c.args[old(len(c.args))].Value, "*values.BoolValue") && asType(c.args[old(len(c.args))].Value, "*values.BoolValue") == result
+//@   ensures known-kind: isType(p, "BoolOpt") || isType(p, "BoolArg")
+//@ func (*Cmd).BoolPtr
+//@   requires recv: c != nil && c.optionsIdx != nil && c.argsIdx != nil && p != nil && into != nil
+//@   maypanic
+//@   ensures option: isType(p, "BoolOpt") ==> len(c.options) == old(len(c.options)) + 1 && len(c.args) == old(len(c.args)) &&
+//@       c.options[old(len(c.options))].ValueSetByUser == asType(p, "BoolOpt").SetByUser && c.options[old(len(c.options))].EnvVar == asType(p, "BoolOpt").EnvVar &&
+//@       c.options[old(len(c.options))].Name == asType(p, "BoolOpt").Name && c.options[old(len(c.options))].HideValue == asType(p, "BoolOpt").HideValue &&
+//@       isType(c.options[old(len(c.options))].Value, "*values.BoolValue") && asType(c.options[old(len(c.options))].Value, "*values.BoolValue") == into
+//@   ensures argument: isType(p, "BoolArg") ==> len(c.args) == old(len(c.args)) + 1 && len(c.options) == old(len(c.options)) &&
+//@       c.args[old(len(c.args))].ValueSetByUser == asType(p, "BoolArg").SetByUser && c.args[old(len(c.args))].EnvVar == asType(p, "BoolArg").EnvVar &&
+//@       c.args[old(len(c.args))].Name == asType(p, "BoolArg").Name && c.args[old(len(c.args))].HideValue == asType(p, "BoolArg").HideValue &&
+//@       isType(c.args[old(len(c.args))].Value, "*values.BoolValue") && asType(c.args[old(len(c.args))].Value, "*values.BoolValue") == into
+//@   ensures known-kind: isType(p, "BoolOpt") || isType(p, "BoolArg")
+//@ func (*Cmd).String
+//@   requires recv: c != nil && c.optionsIdx != nil && c.argsIdx != nil && p != nil
+//@   maypanic
+//@   ensures option: isType(p, "StringOpt") ==> len(c.options) == old(len(c.options)) + 1 && len(c.args) == old(len(c.args)) &&
+//@       c.options[old(len(c.options))].ValueSetByUser == asType(p, "StringOpt").SetByUser && c.options[old(len(c.options))].EnvVar == asType(p, "StringOpt").EnvVar &&
+//@       c.options[old(len(c.options))].Name == asType(p, "StringOpt").Name && c.options[old(len(c.options))].HideValue == asType(p, "StringOpt").HideValue &&
+//@       isType(c.options[old(len(c.options))].Value, "*values.StringValue") && asType(c.options[old(len(c.options))].Value, "*values.StringValue") == result
+//@   ensures argument: isType(p, "StringArg") ==> len(c.args) == old(len(c.args)) + 1 && len(c.options) == old(len(c.options)) &&
+//@       c.args[old(len(c.args))].ValueSetByUser == asType(p, "StringArg").SetByUser && c.args[old(len(c.args))].EnvVar == asType(p, "StringArg").EnvVar &&
+//@       c.args[old(len(c.args))].Name == asType(p, "StringArg").Name && c.args[old(len(c.args))].HideValue == asType(p, "StringArg").HideValue &&
+//@       isType(c.args[old(len(c.args))].Value, "*values.StringValue") && asType(c.args[old(len(c.args))].Value, "*values.StringValue") == result
+//@   ensures known-kind: isType(p, "StringOpt") || isType(p, "StringArg")
+//@ func (*Cmd).StringPtr
+//@   requires recv: c != nil && c.optionsIdx != nil && c.argsIdx != nil && p != nil && into != nil
+//@   maypanic
+//@   ensures option: isType(p, "StringOpt") ==> len(c.options) == old(len(c.options)) + 1 && len(c.args) == old(len(c.args)) &&
+//@       c.options[old(len(c.options))].ValueSetByUser == asType(p, "StringOpt").SetByUser && c.options[old(len(c.options))].EnvVar == asType(p, "StringOpt").EnvVar &&
+//@       c.options[old(len(c.options))].Name == asType(p, "StringOpt").Name && c.options[old(len(c.options))].HideValue == asType(p, "StringOpt").HideValue &&
+//@       isType(c.options[old(len(c.options))].Value, "*values.StringValue") && asType(c.options[old(len(c.options))].Value, "*values.StringValue") == into
+//@   ensures argument: isType(p, "StringArg") ==> len(c.args) == old(len(c.args)) + 1 && len(c.options) == old(len(c.options)) &&
+//@       c.args[old(len(c.args))].ValueSetByUser == asType(p, "StringArg").SetByUser && c.args[old(len(c.args))].EnvVar == asType(p, "StringArg").EnvVar &&
+//@       c.args[old(len(c.args))].Name == asType(p, "StringArg").Name && c.args[old(len(c.args))].HideValue == asType(p, "StringArg").HideValue &&
+//@       isType(c.args[old(len(c.args))].Value, "*values.StringValue") && asType(c.args[old(len(c.args))].Value, "*values.StringValue") == into
+//@   ensures known-kind: isType(p, "StringOpt") || isType(p, "StringArg")
+//@ func (*Cmd).Int
+//@   requires recv: c != nil && c.optionsIdx != nil && c.argsIdx != nil && p != nil
+//@   maypanic
+//@   ensures option: isType(p, "IntOpt") ==> len(c.options) == old(len(c.options)) + 1 && len(c.args) == old(len(c.args)) &&
+//@       c.options[old(len(c.options))].ValueSetByUser == asType(p, "IntOpt").SetByUser && c.options[old(len(c.options))].EnvVar == asType(p, "IntOpt").EnvVar &&
+//@       c.options[old(len(c.options))].Name == asType(p, "IntOpt").Name && c.options[old(len(c.options))].HideValue == asType(p, "IntOpt").HideValue &&
+//@       isType(c.options[old(len(c.options))].Value, "*values.IntValue") && asType(c.options[old(len(c.options))].Value, "*values.IntValue") == result
+//@   ensures argument: isType(p, "IntArg") ==> len(c.args) == old(len(c.args)) + 1 && len(c.options) == old(len(c.options)) &&
+//@       c.args[old(len(c.args))].ValueSetByUser == asType(p, "IntArg").SetByUser && c.args[old(len(c.args))].EnvVar == asType(p, "IntArg").EnvVar &&
+//@       c.args[old(len(c.args))].Name == asType(p, "IntArg").Name && c.args[old(len(c.args))].HideValue == asType(p, "IntArg").HideValue &&
+//@       isType(c.args[old(len(c.args))].Value, "*values.IntValue") && asType(c.args[old(len(c.args))].Value, "*values.IntValue") == result
+//@   ensures known-kind: isType(p, "IntOpt") || isType(p, "IntArg")
+//@ func (*Cmd).IntPtr
+//@   requires recv: c != nil && c.optionsIdx != nil && c.argsIdx != nil && p != nil && into != nil
+//@   maypanic
+//@   ensures option: isType(p, "IntOpt") ==> len(c.options) == old(len(c.options)) + 1 && len(c.args) == old(len(c.args)) &&
+//@       c.options[old(len(c.options))].ValueSetByUser == asType(p, "IntOpt").SetByUser && c.options[old(len(c.options))].EnvVar == asType(p, "IntOpt").EnvVar &&
+//@       c.options[old(len(c.options))].Name == asType(p, "IntOpt").Name && c.options[old(len(c.options))].HideValue == asType(p, "IntOpt").HideValue &&
+//@       isType(c.options[old(len(c.options))].Value, "*values.IntValue") && asType(c.options[old(len(c.options))].Value, "*values.IntValue") == into
+//@   ensures argument: isType(p, "IntArg") ==> len(c.args) == old(len(c.args)) + 1 && len(c.options) == old(len(c.options)) &&
+//@       c.args[old(len(c.args))].ValueSetByUser == asType(p, "IntArg").SetByUser && c.args[old(len(c.args))].EnvVar == asType(p, "IntArg").EnvVar &&
+//@       c.args[old(len(c.args))].Name == asType(p, "IntArg").Name && c.args[old(len(c.args))].HideValue == asType(p, "IntArg").HideValue &&
+//@       isType(c.args[old(len(c.args))].Value, "*values.IntValue") && asType(c.args[old(len(c.args))].Value, "*values.IntValue") == into
+//@   ensures known-kind: isType(p, "IntOpt") || isType(p, "IntArg")
+//@ func (*Cmd).Float64
+//@   requires recv: c != nil && c.optionsIdx != nil && c.argsIdx != nil && p != nil
+//@   maypanic
+//@   ensures option: isType(p, "Float64Opt") ==> len(c.options) == old(len(c.options)) + 1 && len(c.args) == old(len(c.args)) &&
+//@       c.options[old(len(c.options))].ValueSetByUser == asType(p, "Float64Opt").SetByUser && c.options[old(len(c.options))].EnvVar == asType(p, "Float64Opt").EnvVar &&
+//@       c.options[old(len(c.options))].Name == asType(p, "Float64Opt").Name && c.options[old(len(c.options))].HideValue == asType(p, "Float64Opt").HideValue &&
+//@       isType(c.options[old(len(c.options))].Value, "*values.Float64Value") && asType(c.options[old(len(c.options))].Value, "*values.Float64Value") == result
+//@   ensures argument: isType(p, "Float64Arg") ==> len(c.args) == old(len(c.args)) + 1 && len(c.options) == old(len(c.options)) &&
+//@       c.args[old(len(c.args))].ValueSetByUser == asType(p, "Float64Arg").SetByUser && c.args[old(len(c.args))].EnvVar == asType(p, "Float64Arg").EnvVar &&
+//@       c.args[old(len(c.args))].Name == asType(p, "Float64Arg").Name && c.args[old(len(c.args))].HideValue == asType(p, "Float64Arg").HideValue &&
+//@       isType(c.args[old(len(c.args))].Value, "*values.Float64Value") && asType(c.args[old(len(c.args))].Value, "*values.Float64Value") == result
+//@   ensures known-kind: isType(p, "Float64Opt") || isType(p, "Float64Arg")
+//@ func (*Cmd).Float64Ptr
+//@   requires recv: c != nil && c.optionsIdx != nil && c.argsIdx != nil && p != nil && into != nil
+//@   maypanic
+//@   ensures option: isType(p, "Float64Opt") ==> len(c.options) == old(len(c.options)) + 1 && len(c.args) == old(len(c.args)) &&
+//@       c.options[old(len(c.options))].ValueSetByUser == asType(p, "Float64Opt").SetByUser && c.options[old(len(c.options))].EnvVar == asType(p, "Float64Opt").EnvVar &&
+//@       c.options[old(len(c.options))].Name == asType(p, "Float64Opt").Name && c.options[old(len(c.options))].HideValue == asType(p, "Float64Opt").HideValue &&
+//@       isType(c.options[old(len(c.options))].Value, "*values.Float64Value") && asType(c.options[old(len(c.options))].Value, "*values.Float64Value") == into
+//@   ensures argument: isType(p, "Float64Arg") ==> len(c.args) == old(len(c.args)) + 1 && len(c.options) == old(len(c.options)) &&
+//@       c.args[old(len(c.args))].ValueSetByUser == asType(p, "Float64Arg").SetByUser && c.args[old(len(c.args))].EnvVar == asType(p, "Float64Arg").EnvVar &&
+//@       c.args[old(len(c.args))].Name == asType(p, "Float64Arg").Name && c.args[old(len(c.args))].HideValue == asType(p, "Float64Arg").HideValue &&
+//@       isType(c.args[old(len(c.args))].Value, "*values.Float64Value") && asType(c.args[old(len(c.args))].Value, "*values.Float64Value") == into
+//@   ensures known-kind: isType(p, "Float64Opt") || isType(p, "Float64Arg")
+//@ func (*Cmd).Strings
+//@   requires recv: c != nil && c.optionsIdx != nil && c.argsIdx != nil && p != nil
+//@   maypanic
+//@   ensures option: isType(p, "StringsOpt") ==> len(c.options) == old(len(c.options)) + 1 && len(c.args) == old(len(c.args)) &&
+//@       c.options[old(len(c.options))].ValueSetByUser == asType(p, "StringsOpt").SetByUser && c.options[old(len(c.options))].EnvVar == asType(p, "StringsOpt").EnvVar &&
+//@       c.options[old(len(c.options))].Name == asType(p, "StringsOpt").Name && c.options[old(len(c.options))].HideValue == asType(p, "StringsOpt").HideValue &&
+//@       isType(c.options[old(len(c.options))].Value, "*values.StringsValue") && asType(c.options[old(len(c.options))].Value, "*values.StringsValue") == result
+//@   ensures argument: isType(p, "StringsArg") ==> len(c.args) == old(len(c.args)) + 1 && len(c.options) == old(len(c.options)) &&
+//@       c.args[old(len(c.args))].ValueSetByUser == asType(p, "StringsArg").SetByUser && c.args[old(len(c.args))].EnvVar == asType(p, "StringsArg").EnvVar &&
+//@       c.args[old(len(c.args))].Name == asType(p, "StringsArg").Name && c.args[old(len(c.args))].HideValue == asType(p, "StringsArg").HideValue &&
+//@       isType(c.args[old(len(c.args))].Value, "*values.StringsValue") && asType(c.args[old(len(c.args))].Value, "*values.StringsValue") == result
+//@   ensures known-kind: isType(p, "StringsOpt") || isType(p, "StringsArg")
+//@ func (*Cmd).StringsPtr
+//@   requires recv: c != nil && c.optionsIdx != nil && c.argsIdx != nil && p != nil && into != nil
+//@   maypanic
+//@   ensures option: isType(p, "StringsOpt") ==> len(c.options) == old(len(c.options)) + 1 && len(c.args) == old(len(c.args)) &&
+//@       c.options[old(len(c.options))].ValueSetByUser == asType(p, "StringsOpt").SetByUser && c.options[old(len(c.options))].EnvVar == asType(p, "StringsOpt").EnvVar &&
+//@       c.options[old(len(c.options))].Name == asType(p, "StringsOpt").Name && c.options[old(len(c.options))].HideValue == asType(p, "StringsOpt").HideValue &&
+//@       isType(c.options[old(len(c.options))].Value, "*values.StringsValue") && asType(c.options[old(len(c.options))].Value, "*values.StringsValue") == into
+//@   ensures argument: isType(p, "StringsArg") ==> len(c.args) == old(len(c.args)) + 1 && len(c.options) == old(len(c.options)) &&
+//@       c.args[old(len(c.args))].ValueSetByUser == asType(p, "StringsArg").SetByUser && c.args[old(len(c.args))].EnvVar == asType(p, "StringsArg").EnvVar &&
+//@       c.args[old(len(c.args))].Name == asType(p, "StringsArg").Name && c.args[old(len(c.args))].HideValue == asType(p, "StringsArg").HideValue &&
+//@       isType(c.args[old(len(c.args))].Value, "*values.StringsValue") && asType(c.args[old(len(c.args))].Value, "*values.StringsValue") == into
+//@   ensures known-kind: isType(p, "StringsOpt") || isType(p, "StringsArg")
+//@ func (*Cmd).Ints
+//@   requires recv: c != nil && c.optionsIdx != nil && c.argsIdx != nil && p != nil
+//@   maypanic
+//@   ensures option: isType(p, "IntsOpt") ==> len(c.options) == old(len(c.options)) + 1 && len(c.args) == old(len(c.args)) &&
+//@       c.options[old(len(c.options))].ValueSetByUser == asType(p, "IntsOpt").SetByUser && c.options[old(len(c.options))].EnvVar == asType(p, "IntsOpt").EnvVar &&
+//@       c.options[old(len(c.options))].Name == asType(p, "IntsOpt").Name && c.options[old(len(c.options))].HideValue == asType(p, "IntsOpt").HideValue &&
+//@       isType(c.options[old(len(c.options))].Value, "*values.IntsValue") && asType(c.options[old(len(c.options))].Value, "*values.IntsValue") == result
+//@   ensures argument: isType(p, "IntsArg") ==> len(c.args) == old(len(c.args)) + 1 && len(c.options) == old(len(c.options)) &&
+//@       c.args[old(len(c.args))].ValueSetByUser == asType(p, "IntsArg").SetByUser && c.args[old(len(c.args))].EnvVar == asType(p, "IntsArg").EnvVar &&
+//@       c.args[old(len(c.args))].Name == asType(p, "IntsArg").Name && c.args[old(len(c.args))].HideValue == asType(p, "IntsArg").HideValue &&
+//@       isType(c.args[old(len(c.args))].Value, "*values.IntsValue") && asType(c.args[old(len(c.args))].Value, "*values.IntsValue") == result
+//@   ensures known-kind: isType(p, "IntsOpt") || isType(p, "IntsArg")
+//@ func (*Cmd).IntsPtr
+//@   requires recv: c != nil && c.optionsIdx != nil && c.argsIdx != nil && p != nil && into != nil
+//@   maypanic
+//@   ensures option: isType(p, "IntsOpt") ==> len(c.options) == old(len(c.options)) + 1 && len(c.args) == old(len(c.args)) &&
+//@       c.options[old(len(c.options))].ValueSetByUser == asType(p, "IntsOpt").SetByUser && c.options[old(len(c.options))].EnvVar == asType(p, "IntsOpt").EnvVar &&
+//@       c.options[old(len(c.options))].Name == asType(p, "IntsOpt").Name && c.options[old(len(c.options))].HideValue == asType(p, "IntsOpt").HideValue &&
+//@       isType(c.options[old(len(c.options))].Value, "*values.IntsValue") && asType(c.options[old(len(c.options))].Value, "*values.IntsValue") == into
+//@   ensures argument: isType(p, "IntsArg") ==> len(c.args) == old(len(c.args)) + 1 && len(c.options) == old(len(c.options)) &&
+//@       c.args[old(len(c.args))].ValueSetByUser == asType(p, "IntsArg").SetByUser && c.args[old(len(c.args))].EnvVar == asType(p, "IntsArg").EnvVar &&
+//@       c.args[old(len(c.args))].Name == asType(p, "IntsArg").Name && c.args[old(len(c.args))].HideValue == asType(p, "IntsArg").HideValue &&
+//@       isType(c.args[old(len(c.args))].Value, "*values.IntsValue") && asType(c.args[old(len(c.args))].Value, "*values.IntsValue") == into
+//@   ensures known-kind: isType(p, "IntsOpt") || isType(p, "IntsArg")
+//@ func (*Cmd).Floats64
+//@   requires recv: c != nil && c.optionsIdx != nil && c.argsIdx != nil && p != nil
+//@   maypanic
+//@   ensures option: isType(p, "Floats64Opt") ==> len(c.options) == old(len(c.options)) + 1 && len(c.args) == old(len(c.args)) &&
+//@       c.options[old(len(c.options))].ValueSetByUser == asType(p, "Floats64Opt").SetByUser && c.options[old(len(c.options))].EnvVar == asType(p, "Floats64Opt").EnvVar &&
+//@       c.options[old(len(c.options))].Name == asType(p, "Floats64Opt").Name && c.options[old(len(c.options))].HideValue == asType(p, "Floats64Opt").HideValue &&
+//@       isType(c.options[old(len(c.options))].Value, "*values.Floats64Value") && asType(c.options[old(len(c.options))].Value, "*values.Floats64Value") == result
+//@   ensures argument: isType(p, "Floats64Arg") ==> len(c.args) == old(len(c.args)) + 1 && len(c.options) == old(len(c.options)) &&
+//@       c.args[old(len(c.args))].ValueSetByUser == asType(p, "Floats64Arg").SetByUser && c.args[old(len(c.args))].EnvVar == asType(p, "Floats64Arg").EnvVar &&
+//@       c.args[old(len(c.args))].Name == asType(p, "Floats64Arg").Name && c.args[old(len(c.args))].HideValue == asType(p, "Floats64Arg").HideValue &&
+//@       isType(c.args[old(len(c.args))].Value, "*values.Floats64Value") && asType(c.args[old(len(c.args))].Value, "*values.Floats64Value") == result
+//@   ensures known-kind: isType(p, "Floats64Opt") || isType(p, "Floats64Arg")
+//@ func (*Cmd).Floats64Ptr
+//@   requires recv: c != nil && c.optionsIdx != nil && c.argsIdx != nil && p != nil && into != nil
+//@   maypanic
+//@   ensures option: isType(p, "Floats64Opt") ==> len(c.options) == old(len(c.options)) + 1 && len(c.args) == old(len(c.args)) &&
+//@       c.options[old(len(c.options))].ValueSetByUser == asType(p, "Floats64Opt").SetByUser && c.options[old(len(c.options))].EnvVar == asType(p, "Floats64Opt").EnvVar &&
+//@       c.options[old(len(c.options))].Name == asType(p, "Floats64Opt").Name && c.options[old(len(c.options))].HideValue == asType(p, "Floats64Opt").HideValue &&
+//@       isType(c.options[old(len(c.options))].Value, "*values.Floats64Value") && asType(c.options[old(len(c.options))].Value, "*values.Floats64Value") == into
+//@   ensures argument: isType(p, "Floats64Arg") ==> len(c.args) == old(len(c.args)) + 1 && len(c.options) == old(len(c.options)) &&
+//@       c.args[old(len(c.args))].ValueSetByUser == asType(p, "Floats64Arg").SetByUser && c.args[old(len(c.args))].EnvVar == asType(p, "Floats64Arg").EnvVar &&
+//@       c.args[old(len(c.args))].Name == asType(p, "Floats64Arg").Name && c.args[old(len(c.args))].HideValue == asType(p, "Floats64Arg").HideValue &&
+//@       isType(c.args[old(len(c.args))].Value, "*values.Floats64Value") && asType(c.args[old(len(c.args))].Value, "*values.Floats64Value") == into
+//@   ensures known-kind: isType(p, "Floats64Opt") || isType(p, "Floats64Arg")
